@@ -77,7 +77,7 @@ fn semantic(i: &Instance) -> Semantic {
     i.policies.iter().map(|(n, p)| (n.clone(), p.accepts())).collect()
 }
 
-fn permutations(n: usize) -> Vec<Vec<usize>> {
+pub fn permutations(n: usize) -> Vec<Vec<usize>> {
     fn rec(cur: &mut Vec<usize>, used: &mut Vec<bool>, out: &mut Vec<Vec<usize>>) {
         if cur.len() == used.len() {
             out.push(cur.clone());
